@@ -292,6 +292,29 @@ func checkOracles(r *Result, sc *scenario) {
 			}
 		}
 	}
+	// ---- C10: only members of a round's validator set are witnesses of that round
+	for _, nd := range sc.nodes {
+		for rd := 0; rd <= nd.store.LastRound(); rd++ {
+			ri, err := nd.store.GetRound(rd)
+			if err != nil {
+				continue
+			}
+			set, err := nd.store.GetPeerSet(rd)
+			if err != nil {
+				continue
+			}
+			for _, w := range ri.Witnesses() {
+				e, err := nd.store.GetEvent(w)
+				if err != nil {
+					continue
+				}
+				if _, ok := set.ByPubKey[e.Creator()]; !ok {
+					r.violateFor("C10", fmt.Sprintf("node %d: %s is a witness of round %d although its creator %d is not in the validator set of that round", nd.id, d.nameOf(w), rd, d.idx[e.Creator()]), "witness-of-non-member", sc.replayPayload(nil))
+				}
+				r.Inc("witness_membership_checks", 1)
+			}
+		}
+	}
 	// ---- C04: committed order extends causality; once; payload exact
 	for _, nd := range sc.nodes {
 		pos := map[string]int{}
